@@ -135,7 +135,7 @@ def deriv(var: str, e: Expr, ctx: Context) -> Expr:
                           + e.body.subst(e.var, e.upper) * rec(e.upper)
                           - e.body.subst(e.var, e.lower) * rec(e.lower))
         elif e.is_limit():
-            return Limit(e.var, e.lim, rec(e.body))
+            return Limit(e.var, e.lim, rec(e.body), e.drt)
         elif e.is_summation():
             return Summation(e.index_var, e.lower, e.upper, rec(e.body))
         elif e.is_inf():
